@@ -40,12 +40,6 @@ __CPROVER_ensures((__CPROVER_same_object(input, g_gp_base) && __CPROVER_POINTER_
 
 #include "src/secp256k1.c"
 #include "post.h"
-/* verif.h's INPUT_BUF allocates 1 byte for len == 0; exact objects also for the empty input: */
-#ifndef VERIF_NATIVE
-# define INPUT_BUF_EXACT(name, ptr, len, N) do { ptr = malloc(len); __CPROVER_assume(ptr != NULL); } while (0)
-#else
-# define INPUT_BUF_EXACT(name, ptr, len, N) INPUT_BUF(name, ptr, len, N)
-#endif
 
 #ifndef NMAX
 # define NMAX  ((size_t)1 << 20)          /* 2^20 generators */
@@ -59,7 +53,7 @@ void h_gens_parse(void) {
     unsigned char *data; secp256k1_bppp_generators *g; size_t n_out = 0;
     verif_ctx_init(&ctx);
     __CPROVER_assume(len <= MAXLEN);
-    INPUT_BUF_EXACT(buf, data, len, 66);
+    INPUT_BUF(buf, data, len, 66);
     g = secp256k1_bppp_generators_parse(&ctx, use_data ? data : NULL, len);
     WITNESS_BUF(buf, data, len, 66);
 #ifdef GENS_OOM
